@@ -100,6 +100,7 @@ def run(ctx):
         jobs.append([os.path.join(rd, "y.ndjson"), "yscr", ctx.seed, 2 if q else 8])
         for i in range(1 if q else 4):
             jobs.append([os.path.join(rd, "n%d.ndjson" % i), "counts", ctx.seed + i, 9 if q else 18])
+        jobs.append([os.path.join(rd, "st.ndjson"), "stress", ctx.seed + 5, 40 if q else 600])
         for nw, k, words, total in plans:
             chunk = max(1, (len(words) + 5) // 6)
             for ci in range(0, len(words), chunk):
@@ -157,7 +158,7 @@ def run(ctx):
             known = any(v[0] == sig for v in ctx.violations) or sig in ctx.known_hits
             ctx.violation(sig, what, dict(kind="block", run=_run_info(block), event=ev, block=small))
             return "dup" if known else None
-        trace.check_trace(ctx, "TraceRng", "Trace_Rng.cfg", "Trace_Rng.cfg", events, on_reject, drop="block", max_rounds=60, label="trace_rng", xmx="8g")
+        trace.check_trace(ctx, "TraceRng", "Trace_Rng.cfg", "Trace_Rng_prop.cfg", events, on_reject, drop="block", max_rounds=60, label="trace_rng", xmx="8g")
         ctx.traces(len(blocks))
 
         def corrupt(evs):
